@@ -170,10 +170,28 @@ static Verdict run_c17(const Case &c)
       s = std::string("-") + m;
     groups.push_back({s});
   }
+  // a file option given twice: the last one wins (getopt order); the earlier one names a decoy that opens fine, so
+  // the expected outcome is that of the command line without it
+  long dup = c.geti("dup");
+  if (dup)
+  {
+    write_file(dir + "/decoy.dat", "decoy input, never used");
+    v.classes.push_back(std::string("repeated_option") + ((dup & 1) ? "_i" : "") + ((dup & 2) ? "_o" : ""));
+  }
   if (in_k != "none")
-    groups.push_back({longform ? "--input" : "-i", in_path});
+  {
+    if (dup & 1)
+      groups.push_back({"-i", "decoy.dat", longform ? "--input" : "-i", in_path});
+    else
+      groups.push_back({longform ? "--input" : "-i", in_path});
+  }
   if (out_k != "none")
-    groups.push_back({longform ? "--output" : "-o", out_path});
+  {
+    if (dup & 2)
+      groups.push_back({"--output", "decoy.out", longform ? "--output" : "-o", out_path});
+    else
+      groups.push_back({longform ? "--output" : "-o", out_path});
+  }
   if (key_k != "none")
     groups.push_back({longform ? "--key" : "-k", key_s});
   if (!cm.empty())
@@ -322,7 +340,11 @@ static Verdict run_c17(const Case &c)
         timeouts++;
     }
     if (timeouts == 3)
-      return bad("did not terminate within 30 s in three consecutive attempts");
+    {
+      Verdict f = bad("did not terminate within 30 s in three consecutive attempts");
+      f.slow = true;
+      return f;
+    }
     v.classes.push_back("watchdog_inconclusive");
     v.nontrivial = false;
     return v;
@@ -502,6 +524,8 @@ static Case gen_c17()
   c.seti("pathlen", g::coin(50) ? g::oneof<long>({123, 124, 130, 140, 200, 300, 1000, 3000}) : g::coin(60) ? g::range(245, 265) : g::oneof<long>({127, 128, 129, 510, 511, 512, 513, 1023, 1024, 1025, 2047, 2048, 4000, 4080, 4090, 4095, 4096, 4097, 4100, 4200, 5000, 8192, 20000, 100000}));
   c.seti("asan", g::coin(25) ? 1 : 0);
   c.seti("followup", g::coin(40) ? 1 : 0);
+  if (g::coin(12))
+    c.seti("dup", g::range(1, 4));
   return c;
 }
 
